@@ -61,8 +61,8 @@ def _abstract_args(name, args, kwargs, Table):
         return None if order is None else {"order": order, "axis": get(1, "axis", "sample"), "form": "list"}
     if name == "filter":
         k = get(0, "ids_to_keep")
-        if callable(k):
-            return None
+        if callable(k):          # predicate form: only the frame rule / identity / coherence clauses are judged
+            return {"raw": True, "axis": get(1, "axis", "sample"), "inplace": bool(get(3, "inplace", True))}
         ids = _ids(k)
         return None if ids is None else {"mode": "ids", "ids": ids, "form": "list", "axis": get(1, "axis", "sample"),
                                          "invert": bool(get(2, "invert", False)), "inplace": bool(get(3, "inplace", True)),
@@ -88,8 +88,14 @@ def _abstract_args(name, args, kwargs, Table):
         keys = get(0, "keys")
         return {"keys": [str(k) for k in keys] if keys is not None else [], "allkeys": keys is None,
                 "axis": get(1, "axis", "whole")}
-    if name in ("merge", "concat", "align_to"):
+    if name in ("merge", "concat", "align_to", "sort", "subsample", "collapse"):
         return {"raw": True}
+    if name == "transform":
+        return {"raw": True, "inplace": bool(get(2, "inplace", True))}
+    if name == "norm":
+        return {"raw": True, "inplace": bool(get(1, "inplace", True))}
+    if name == "pa":
+        return {"raw": True, "inplace": bool(get(0, "inplace", True))}
     return None
 
 
